@@ -356,6 +356,9 @@ for _n, _st in (('join', None), ('leftjoin', None), ('rightjoin', None), ('outer
       group='hashjoins' if _n.startswith('hash') else 'joins', ragged=(_n != 'hashantijoin'))
 E('hashrightjoin-lrkey-missing', lambda a, b: etl.hashrightjoin(a, b, lkey='f0', rkey='f0', missing='M'), arity=2, second='joinrev', stream=1,
   group='hashjoins')
+for _n, _st in (('leftjoin', None), ('rightjoin', None), ('lookupjoin', None), ('hashleftjoin', 0), ('hashrightjoin', 1), ('hashlookupjoin', 0)):
+    E(_n + '-missing', (lambda f: lambda a, b: f(a, b, key='f0', missing='M'))(getattr(etl, _n)), arity=2, stream=_st,
+      group='hashjoins' if _n.startswith('hash') else 'joins')
 E('addcolumn-missing', lambda s: etl.addcolumn(s, 'q', [1, 2, 3], missing='NA'), stream=0, group='basics', ragged=False)
 E('addcolumn-index-missing', lambda s: etl.addcolumn(s, 'q', [1, 2, 3], index=1, missing='-'), stream=0, group='basics', ragged=False)
 E('annex1-missing', lambda s: etl.annex(s, [['q'], [1]], missing='NA'), stream=0, group='basics')
